@@ -138,10 +138,197 @@ theorem C18_handlers_before_registered (name : String) {id : String} (h : H.answ
     ∀ base, mkTy env mkCls H (.sub name base) = .ok (.custom id) :=
   ⟨by rw [mkTy_enum, h], fun base => by rw [mkTy_sub, h]⟩
 
+/-- **registered global handlers come before the container constructions too** (fixed tuples, homogeneous
+sequences / sets, mappings — every structural built-in comes after the loop over `_GLOBAL_HANDLERS`): if
+no call- or class-level handler answers and a registered handler answers for the head with its number of
+arguments, that converter is the result — for ANY arguments: the element types are not even built (they
+may be unbuildable), and the origin may be one the built-in rule refuses (`seqKind origin = none`) -/
+theorem C18_registered_before_containers {id : String} :
+    (∀ (origin : String) (arg : Option Ty), H.answer origin (if arg.isSome then 1 else 0) = none →
+      env.registered.findSome? (·.answer origin (if arg.isSome then 1 else 0)) = some id →
+      mkTy env mkCls H (.seq origin arg) = .ok (.custom id)) ∧
+    (∀ ts : List Ty, H.answer "tuple" ts.length = none →
+      env.registered.findSome? (·.answer "tuple" ts.length) = some id →
+      mkTy env mkCls H (.tupleFixed ts) = .ok (.custom id)) ∧
+    (∀ (origin : String) (args : List Ty), H.answer origin args.length = none →
+      env.registered.findSome? (·.answer origin args.length) = some id →
+      mkTy env mkCls H (.mapping origin args) = .ok (.custom id)) :=
+  ⟨fun origin arg h r => mkTy_seq_registered origin arg h r,
+   fun ts h r => mkTy_tupleFixed_registered ts h r,
+   fun origin args h r => mkTy_mapping_registered origin args h r⟩
+
+/-- call- and class-level handlers come before the registered ones at the containers as well: whatever
+is registered (no hypothesis on `env`) -/
+theorem C18_handlers_before_registered_containers {id : String} :
+    (∀ (origin : String) (arg : Option Ty), H.answer origin (if arg.isSome then 1 else 0) = some id →
+      mkTy env mkCls H (.seq origin arg) = .ok (.custom id)) ∧
+    (∀ ts : List Ty, H.answer "tuple" ts.length = some id →
+      mkTy env mkCls H (.tupleFixed ts) = .ok (.custom id)) ∧
+    (∀ (origin : String) (args : List Ty), H.answer origin args.length = some id →
+      mkTy env mkCls H (.mapping origin args) = .ok (.custom id)) :=
+  ⟨fun origin arg h => by rw [mkTy_seq, h], fun ts h => by rw [mkTy_tupleFixed, h],
+   fun origin args h => by rw [mkTy_mapping, h]⟩
+
+/-- **silent registered handlers change nothing**, one level: if no registered handler answers for the
+head of a container with its number of arguments, the node is built exactly as it is with nothing
+registered AT THAT NODE — the handler loop, then the built-in rule; the element types are built by the
+recursive calls, which keep `env` (and so ask the registered handlers again, for THEIR heads) -/
+theorem C18_registered_irrelevant_when_silent :
+    (∀ (origin : String) (arg : Option Ty),
+      env.registered.findSome? (·.answer origin (if arg.isSome then 1 else 0)) = none →
+      mkTy env mkCls H (.seq origin arg) =
+        match H.answer origin (if arg.isSome then 1 else 0) with
+        | some id => .ok (.custom id)
+        | none =>
+          match seqKind origin with
+          | none => .error (.typeError ("No converter for abstract type '" ++ origin ++ "'"))
+          | some kind =>
+            match arg with
+            | some a => (mkTy env mkCls H a).map (.seq kind)
+            | none => .ok (.seq kind .any)) ∧
+    (∀ ts : List Ty, env.registered.findSome? (·.answer "tuple" ts.length) = none →
+      mkTy env mkCls H (.tupleFixed ts) =
+        match H.answer "tuple" ts.length with
+        | some id => .ok (.custom id)
+        | none => (exAll (mkTys env mkCls H ts)).map .tuple) ∧
+    (∀ (origin : String) (args : List Ty), env.registered.findSome? (·.answer origin args.length) = none →
+      mkTy env mkCls H (.mapping origin args) =
+        match H.answer origin args.length with
+        | some id => .ok (.custom id)
+        | none =>
+          match seqKind origin with
+          | none => .error (.typeError ("No converter for abstract type '" ++ origin ++ "'"))
+          | some kind =>
+            if kind == "Counter" then
+              match args with
+              | a :: _ =>
+                match mkTy env mkCls H a, mkTy.mkInner H (.scalar "int") with
+                | .ok k, .ok v => .ok (.dict kind k v)
+                | .error e, _ => .error e
+                | _, .error e => .error e
+              | [] => (mkTy.mkInner H (.scalar "int")).map (.dict kind .any)
+            else
+              match args with
+              | [] => .ok (.dict kind .any .any)
+              | [a] => (mkTy env mkCls H a).map fun k => .dict kind k .any
+              | a :: b :: _ =>
+                match mkTy env mkCls H a, mkTy env mkCls H b with
+                | .ok k, .ok v => .ok (.dict kind k v)
+                | .error e, _ => .error e
+                | _, .error e => .error e) :=
+  ⟨fun origin arg r => by rw [mkTy_seq, r]; cases H.answer origin (if arg.isSome then 1 else 0) <;> rfl,
+   fun ts r => by rw [mkTy_tupleFixed, r]; cases H.answer "tuple" ts.length <;> rfl,
+   fun origin args r => by rw [mkTy_mapping, r]; cases H.answer origin args.length <;> rfl⟩
+
+/-- the same, as a comparison with the environment in which nothing is registered: if the registered
+handlers are silent for the head of the container and the element types are built alike, the container
+is built alike -/
+theorem C18_registered_irrelevant_when_silent_nil :
+    (∀ (origin : String) (arg : Option Ty),
+      env.registered.findSome? (·.answer origin (if arg.isSome then 1 else 0)) = none →
+      (∀ a, arg = some a → mkTy env mkCls H a = mkTy { env with registered := [] } mkCls H a) →
+      mkTy env mkCls H (.seq origin arg) = mkTy { env with registered := [] } mkCls H (.seq origin arg)) ∧
+    (∀ ts : List Ty, env.registered.findSome? (·.answer "tuple" ts.length) = none →
+      (∀ a ∈ ts, mkTy env mkCls H a = mkTy { env with registered := [] } mkCls H a) →
+      mkTy env mkCls H (.tupleFixed ts) = mkTy { env with registered := [] } mkCls H (.tupleFixed ts)) ∧
+    (∀ (origin : String) (args : List Ty), env.registered.findSome? (·.answer origin args.length) = none →
+      (∀ a ∈ args, mkTy env mkCls H a = mkTy { env with registered := [] } mkCls H a) →
+      mkTy env mkCls H (.mapping origin args) = mkTy { env with registered := [] } mkCls H (.mapping origin args)) := by
+  refine ⟨?_, ?_, ?_⟩
+  · intro origin arg r ha
+    rw [mkTy_seq, mkTy_seq, r]
+    cases arg with
+    | none => rfl
+    | some a => dsimp only; rw [ha a rfl]; rfl
+  · intro ts r ha
+    rw [mkTy_tupleFixed, mkTy_tupleFixed, r, mkTys_congr_env (env := { env with registered := [] }) (env' := env) ha]
+    rfl
+  · intro origin args r ha
+    rw [mkTy_mapping, mkTy_mapping, r]
+    cases args with
+    | nil => rfl
+    | cons a as =>
+      cases as with
+      | nil => dsimp only; rw [ha a (List.mem_cons_self ..)]; rfl
+      | cons b bs =>
+        dsimp only
+        rw [ha a (List.mem_cons_self ..), ha b (List.mem_cons_of_mem _ (List.mem_cons_self ..))]; rfl
+
+/-- **which type forms consult the registered handlers, completely.**  By cases on the constructor of `t`
+(`consultsRegistered t`: a scalar without a row in the table, an enum, a subclass of a scalar, a fixed tuple,
+a sequence / set, a mapping):
+
+* `consultsRegistered t = true`: when the handler loop is silent, a registered handler answering for the head
+  of `t` with its number of arguments IS the result, whatever the environment and the arguments;
+* `consultsRegistered t = false`: the node does not depend on what is registered — replacing the registered
+  handlers by any `reg` changes the result only through the recursive calls on the parts of `t`
+  (`builtParts t`; for a dataclass the fields are built by the parameter `mkCls`, which is held fixed). -/
+theorem C18_registered_rank_complete (t : Ty) :
+    (consultsRegistered t = true → ∀ id, H.answer t.head t.nargs = none →
+      env.registered.findSome? (·.answer t.head t.nargs) = some id → mkTy env mkCls H t = .ok (.custom id)) ∧
+    (consultsRegistered t = false → ∀ reg : List Handler,
+      (∀ a ∈ builtParts t, mkTy { env with registered := reg } mkCls H a = mkTy env mkCls H a) →
+      mkTy { env with registered := reg } mkCls H t = mkTy env mkCls H t) := by
+  constructor
+  · intro hc id h r
+    cases t with
+    | scalar n =>
+      have hrow : Facts.basicTable.find? (·.1 == n) = none := by
+        simpa [consultsRegistered] using hc
+      exact C18_registered_scalar n h hrow r
+    | enum n => exact (C18_registered_before_structural n h r).1
+    | sub n b => exact (C18_registered_before_structural n h r).2 b
+    | seq o arg =>
+      cases arg with
+      | none => exact mkTy_seq_registered o none h r
+      | some a => exact mkTy_seq_registered o (some a) h r
+    | tupleFixed ts => exact mkTy_tupleFixed_registered ts h r
+    | mapping o args => exact mkTy_mapping_registered o args h r
+    | _ => cases hc
+  · intro hc reg hp
+    cases t with
+    | scalar n =>
+      exact C18_registered_after_scalars n (by simpa [consultsRegistered] using hc) reg
+    | any => rfl
+    | literal vs => rfl
+    | forwardRef s => rfl
+    | unsupported w => rfl
+    | ndarray => rfl
+    | pattern arg => rw [mkTy_pattern, mkTy_pattern]
+    | cls n args => rw [mkTy_cls, mkTy_cls]
+    | union ts => rw [mkTy_union, mkTy_union, mkTys_congr_env (ts := ts) hp]
+    | structLit names ts => rw [mkTy_structLit, mkTy_structLit, mkTys_congr_env (ts := ts) hp]
+    | tupleLit ts => rw [mkTy_tupleLit, mkTy_tupleLit, mkTys_congr_env (ts := ts) hp]
+    | typeVar n bound cs =>
+      cases bound with
+      | some b => rw [mkTy_typeVar, mkTy_typeVar]; exact hp b (List.mem_cons_self ..)
+      | none => rw [mkTy_typeVar, mkTy_typeVar, mkTys_congr_env (ts := cs) hp]
+    | valueOrList arg =>
+      cases arg with
+      | none => rw [mkTy_valueOrList, mkTy_valueOrList]
+      | some a => rw [mkTy_valueOrList, mkTy_valueOrList]; dsimp only; rw [hp a (List.mem_cons_self ..)]
+    | annotated t anns =>
+      rw [mkTy_annotated, mkTy_annotated, annGo_registered]
+      cases t with
+      | union ts =>
+        have hu : mkTy { env with registered := reg } mkCls H (.union ts) = mkTy env mkCls H (.union ts) := by
+          rw [mkTy_union, mkTy_union, mkTys_congr_env (ts := ts) hp]
+        dsimp only
+        rw [mkTys_congr_env (ts := ts) hp, hu]
+      | _ => rw [hp _ (List.mem_cons_self ..)]
+    | _ => cases hc
+
+/-- the leaves: a type form that does not consult the registered handlers and has no parts is built
+without any look at them (`Any`, `Literal`, a scalar of the table, `re.Pattern`, `ndarray`, a dataclass
+— given `mkCls` —, bare `ValueOrList`, an unresolved forward reference, an unsupported special type) -/
+theorem C18_registered_rank_leaves (t : Ty) (hc : consultsRegistered t = false) (hp : builtParts t = [])
+    (reg : List Handler) : mkTy { env with registered := reg } mkCls H t = mkTy env mkCls H t :=
+  (C18_registered_rank_complete t).2 hc reg (by rw [hp]; intro a ha; cases ha)
+
 /-- **handlers first, at every form that is not a special form**: if the handler loop answers for the
 head of the type with its number of arguments, the result is that user converter — no recursion into
 the arguments, no look at the environment (`asksHandlers t`: scalars, sequences, fixed tuples,
-mappings, dataclasses, enums, scalar subclasses, `re.Pattern`, `ndarray`) -/
+mappings, dataclasses, enums, scalar subclasses, `re.Pattern`, `ndarray`, `ValueOrList`) -/
 theorem C18_handler_first_structural (t : Ty) (ht : asksHandlers t = true) {id : String}
     (h : H.answer t.head t.nargs = some id) : mkTy env mkCls H t = .ok (.custom id) := by
   cases t with
@@ -160,6 +347,10 @@ theorem C18_handler_first_structural (t : Ty) (ht : asksHandlers t = true) {id :
     | none => rw [mkTy_pattern, show H.answer "Pattern" (if (none : Option String).isSome then 1 else 0) = some id from h]
     | some a => rw [mkTy_pattern, show H.answer "Pattern" (if (some a).isSome then 1 else 0) = some id from h]
   | ndarray => rw [mkTy_ndarray, show H.answer "ndarray" 0 = some id from h]
+  | valueOrList arg =>
+    cases arg with
+    | none => rw [mkTy_valueOrList, show H.answer "ValueOrList" (if (none : Option Ty).isSome then 1 else 0) = some id from h]
+    | some a => rw [mkTy_valueOrList, show H.answer "ValueOrList" (if (some a).isSome then 1 else 0) = some id from h]
   | _ => cases ht
 
 /-! ## Special forms are recognised before the handler loop -/
@@ -395,8 +586,8 @@ theorem C18_precedence {ce : ClassEntry} {c : Conv}
 /-! ## Reach: every depth -/
 
 /-- **the same handlers at every recursive call.**  At each type form that has parts, the parts are
-built with the very handlers `H` the node was built with (for containers: unless a handler took the
-whole container).  Together with `C18_pane_merge` (dataclass: `globals` unchanged, `classLocal`
+built with the very handlers `H` the node was built with (for containers: unless a handler — of the
+call, of a class, or a registered one — took the whole container).  Together with `C18_pane_merge` (dataclass: `globals` unchanged, `classLocal`
 extended) this is the structural reason for reach. -/
 theorem C18_reach_step :
     (∀ ts, mkTy env mkCls H (.union ts) = (exAll (mkTys env mkCls H ts)).map .union) ∧
@@ -404,10 +595,12 @@ theorem C18_reach_step :
       (exAll (mkTys env mkCls H ts)).map fun cs => .struct names cs) ∧
     (∀ ts, mkTy env mkCls H (.tupleLit ts) = (exAll (mkTys env mkCls H ts)).map .tuple) ∧
     (∀ ts, H.answer "tuple" ts.length = none →
+      env.registered.findSome? (·.answer "tuple" ts.length) = none →
       mkTy env mkCls H (.tupleFixed ts) = (exAll (mkTys env mkCls H ts)).map .tuple) ∧
-    (∀ o a kind, H.answer o 1 = none → seqKind o = some kind →
+    (∀ o a kind, H.answer o 1 = none → env.registered.findSome? (·.answer o 1) = none → seqKind o = some kind →
       mkTy env mkCls H (.seq o (some a)) = (mkTy env mkCls H a).map (.seq kind)) ∧
-    (∀ o a b rest kind, H.answer o (a :: b :: rest).length = none → seqKind o = some kind →
+    (∀ o a b rest kind, H.answer o (a :: b :: rest).length = none →
+      env.registered.findSome? (·.answer o (a :: b :: rest).length) = none → seqKind o = some kind →
       (kind == "Counter") = false →
       mkTy env mkCls H (.mapping o (a :: b :: rest)) =
         match mkTy env mkCls H a, mkTy env mkCls H b with
@@ -419,11 +612,11 @@ theorem C18_reach_step :
       mkTy env mkCls H (.cls nm args) = mkCls ce H) ∧
     (∀ ts, mkTys env mkCls H ts = ts.map (mkTy env mkCls H)) := by
   refine ⟨mkTy_union, mkTy_structLit, mkTy_tupleLit, ?_, ?_, ?_, ?_, ?_⟩
-  · intro ts h; rw [mkTy_tupleFixed, h]
-  · intro o a kind h hk
-    rw [mkTy_seq, show H.answer o (if (some a).isSome then 1 else 0) = none from h, hk]
-  · intro o a b rest kind h hk hc
-    rw [mkTy_mapping, h, hk]
+  · intro ts h r; rw [mkTy_tupleFixed_silent ts h r]
+  · intro o a kind h r hk
+    rw [mkTy_seq_silent o (some a) h r, hk]
+  · intro o a b rest kind h r hk hc
+    rw [mkTy_mapping_silent o _ h r, hk]
     simp only [hc, Bool.false_eq_true, if_false]
     cases mkTy env mkCls H a <;> cases mkTy env mkCls H b <;> rfl
   · intro nm args ce h hf
@@ -663,6 +856,63 @@ example (mkCls) : mkTy { registered := [{ entries := [("Color", "colorconv")], e
   (C18_handlers_before_registered (H := { globals := [{ entries := [("Color", "callconv")], exactOnly := true }] })
     "Color" (id := "callconv") (by decide)).1
 
+/-! `C18_registered_before_containers`, `C18_handlers_before_registered_containers`,
+`C18_registered_irrelevant_when_silent`, `C18_registered_rank_complete` -/
+/-- a registered function-form handler for `list` (as `register_converter_handler` installs them): `List[int]`
+becomes its converter — `int` is not built — while `int` alone stays the row of the table -/
+example : makeConverter { registered := [exFn] } {} (.seq "list" (some (.scalar "int"))) = .ok (.custom "anylist") := by rfl
+example : makeConverter { registered := [exFn] } {} (.scalar "int") = .ok exIntRow := by rfl
+example (mkCls) : mkTy { registered := [exFn] } mkCls {} (.seq "list" (some (.scalar "int"))) = .ok (.custom "anylist") :=
+  C18_registered_before_containers.1 "list" (some (.scalar "int")) (by decide) (by decide)
+/-- the element type may be one `make_converter` refuses, the origin one the built-in rule refuses -/
+example (mkCls) : mkTy { registered := [exFn] } mkCls {} (.seq "list" (some (.forwardRef "X"))) = .ok (.custom "anylist") :=
+  C18_registered_before_containers.1 "list" _ (by decide) (by decide)
+example : makeConverter {} {} (.seq "list" (some (.forwardRef "X"))) = .error (.typeError "Unresolved forward reference 'X'") := by rfl
+example : makeConverter {} {} (.seq "Collection" (some (.scalar "int"))) =
+    .error (.typeError "No converter for abstract type 'Collection'") := by rfl
+example : makeConverter { registered := [{ entries := [("Collection", "coll")], exactOnly := false }] } {}
+    (.seq "Collection" (some (.scalar "int"))) = .ok (.custom "coll") := by rfl
+/-- fixed tuples and mappings -/
+example : makeConverter { registered := [{ entries := [("tuple", "tup")], exactOnly := false }] } {}
+    (.tupleFixed [.scalar "int", .scalar "str"]) = .ok (.custom "tup") := by rfl
+example (mkCls) : mkTy { registered := [{ entries := [("tuple", "tup")], exactOnly := false }] } mkCls {}
+    (.tupleFixed [.scalar "int", .forwardRef "X"]) = .ok (.custom "tup") :=
+  C18_registered_before_containers.2.1 _ (by decide) (by decide)
+example : makeConverter { registered := [exGreedy] } {} (.mapping "dict" [.scalar "str", .scalar "int"]) = .ok (.custom "d") := by rfl
+example (mkCls) : mkTy { registered := [exGreedy] } mkCls {} (.mapping "dict" [.scalar "str", .forwardRef "X"]) = .ok (.custom "d") :=
+  C18_registered_before_containers.2.2 "dict" _ (by decide) (by decide)
+/-- a mapping-form registered handler (`exMapList`) answers for the bare `list` only -/
+example : makeConverter { registered := [exMapList] } {} (.seq "list" none) = .ok (.custom "barelist") := by rfl
+example : makeConverter { registered := [exMapList] } {} (.seq "list" (some (.scalar "int"))) = .ok (.seq "list" exIntRow) := by rfl
+/-- a call-level handler wins over the registered one -/
+example : makeConverter { registered := [exFn] } { globals := [{ entries := [("list", "calllist")], exactOnly := false }] }
+    (.seq "list" (some (.scalar "int"))) = .ok (.custom "calllist") := by rfl
+example (mkCls) : mkTy { registered := [exFn] } mkCls { globals := [{ entries := [("list", "calllist")], exactOnly := false }] }
+    (.seq "list" (some (.scalar "int"))) = .ok (.custom "calllist") :=
+  C18_handlers_before_registered_containers.1 "list" _ (by decide)
+/-- registered handlers that are silent for `list`: the built-in rule — and the ELEMENT type still asks them -/
+example : makeConverter { registered := [{ entries := [("Money", "moneyconv")], exactOnly := true }] } {}
+    (.seq "list" (some (.scalar "int"))) = .ok (.seq "list" exIntRow) := by rfl
+example : makeConverter { registered := [{ entries := [("Money", "moneyconv")], exactOnly := true }] } {}
+    (.seq "list" (some (.scalar "Money"))) = .ok (.seq "list" (.custom "moneyconv")) := by rfl
+example (mkCls) : mkTy { registered := [{ entries := [("Money", "moneyconv")], exactOnly := true }] } mkCls {}
+      (.seq "list" (some (.scalar "int"))) =
+    mkTy { registered := [] } mkCls {} (.seq "list" (some (.scalar "int"))) :=
+  C18_registered_irrelevant_when_silent_nil.1 "list" _ (by decide)
+    (fun a ha => by cases ha; exact (C18_registered_after_scalars "int" (by decide) []).symm)
+/-- `consultsRegistered`: `int` (a row of the table) does not, `Money` does, `list[int]` does, a `Union` does not -/
+example : consultsRegistered (.scalar "int") = false ∧ consultsRegistered (.scalar "Money") = true ∧
+    consultsRegistered (.seq "list" (some (.scalar "int"))) = true ∧ consultsRegistered (.tupleFixed []) = true ∧
+    consultsRegistered (.mapping "dict" []) = true ∧ consultsRegistered (.enum "Color") = true ∧
+    consultsRegistered (.sub "MyInt" "int") = true ∧ consultsRegistered (.union [.scalar "Money"]) = false ∧
+    consultsRegistered (.cls "C" []) = false ∧ consultsRegistered (.pattern none) = false ∧
+    consultsRegistered .ndarray = false ∧ consultsRegistered (.valueOrList none) = false := by decide
+example (mkCls) (reg) : mkTy { exEnv with registered := reg } mkCls {} (.pattern (some "str")) = mkTy exEnv mkCls {} (.pattern (some "str")) :=
+  C18_registered_rank_leaves _ rfl rfl reg
+/-- a `Union` does not ask them for itself, its members do -/
+example : makeConverter { registered := [{ entries := [("Union", "u"), ("Money", "moneyconv")], exactOnly := false }] } {}
+    (.union [.scalar "Money", .scalar "int"]) = .ok (.union [.custom "moneyconv", exIntRow]) := by rfl
+
 /-! `C18_handler_first_structural`, `C18_mapping_form` -/
 /-- function form: `list[int]` is taken as a whole, no converter is built for `int` -/
 example : makeConverter exEnv { globals := [exFn, exG] } (.seq "list" (some (.scalar "int"))) = .ok (.custom "anylist") := by rfl
@@ -810,6 +1060,12 @@ end Examples
 #print axioms C18_registered_scalar
 #print axioms C18_registered_before_structural
 #print axioms C18_handlers_before_registered
+#print axioms C18_registered_before_containers
+#print axioms C18_handlers_before_registered_containers
+#print axioms C18_registered_irrelevant_when_silent
+#print axioms C18_registered_irrelevant_when_silent_nil
+#print axioms C18_registered_rank_complete
+#print axioms C18_registered_rank_leaves
 #print axioms C18_handler_first_structural
 #print axioms C18_special_forms_first
 #print axioms C18_special_forms_annotated
